@@ -25,6 +25,7 @@ the record's own FORMERR tests;
 (e) a counted record is 'delimited' only if it lies inside the message: peek_rr / skip_rr succeed only with
 owner_end + 10 <= rr_end <= len(octets) (the PeekRr / Reader invariants of C15, re-proved here), so a record cut short by
 even one octet takes the Err arm that is answered FORMERR.
+(f) handle_query is dominated by the reads of ANCOUNT, NSCOUNT, ARCOUNT and by the end-of-message test.
 Not decided: which of two simultaneous errors wins for arbitrary octets (value-level).
 """
 ASSUMPTIONS = [
@@ -158,6 +159,16 @@ def check(R, F):
         R.require(not late, 'formerr-first', HMWC + '|rcode-%s-in-opt-arm' % code, hm.where(b), 'RCODE %s in the OPT arm is set only after the duplicate-OPT decision' % code,
                   'RCODE %s is set (and returned) in the OPT arm before the duplicate-OPT FORMERR test was reached' % code)
     R.floor('formerr-first', 2)
+
+    # ---- (f) opcode dispatch only after the whole message was scanned
+    disp = [b for b, t in hm.calls() if callee_name(t) == HANDLE_QUERY]
+    reads = {w: [b for b, t in hm.calls() if callee_name(t).endswith("Reader::<'a>::" + w)] for w in ('ancount', 'nscount', 'arcount', 'at_eom')}
+    if disp and all(reads.values()):
+        bad_d = [b for b in disp if not all(any(hm.dominates(rb, b) for rb in bs) for bs in reads.values())]
+        R.require(not bad_d, 'scan-before-dispatch', HMWC + '|counts-and-eom-read-first', hm.where(disp[0]), 'query processing starts only after ANCOUNT/NSCOUNT/ARCOUNT were read and the end-of-message test ran',
+                  'handle_query is reachable at %s without the section counts having been read and the end-of-message test having run: counted-but-missing records would not be answered FORMERR' % [hm.where(b) for b in bad_d])
+    else:
+        R.bad('scan-before-dispatch', HMWC + '|counts-and-eom-read-first', hm.where(), 'cannot find the handle_query call and the ancount/nscount/arcount/at_eom reads')
 
     # ---- (c) scan order is message order
     def first_call(pred):
